@@ -18,7 +18,8 @@ LEVEL = 'exploration'
 RULE = ('Hypothesis strategy over simnet cases: publisher (source or relay) with 1-2 synchronized consumers named in outputs_required and 1-3 ephemeral '
         "consumers ('?'/'??'; all topics, one topic, several topics; per-frame work 0-50 s, stalled forever, or hard-killed at a generated time), optional "
         'ephemeral branch rejoined as an ephemeral source, all delay classes. Non-trivial = at least one ephemeral consumer was slower than the publisher, '
-        'stalled or dead while >= 5 frames flowed to a synchronized sink. Distinct = distinct case value.')
+        'stalled or dead while >= 5 frames flowed to a synchronized sink. Distinct = distinct case value.'
+        ' Parts: differential (above, plus a balancing publisher variant); mixed_receiver (2-3-topic ephemeral source beside a synchronized/ephemeral one, per-message delays; non-trivial = >= 3 ephemeral sets in >= 5 calls); sync_beside_ephemeral (120-200 frames, slow or stalling consumer with sources [E?, S] / [S, E?], SUB queues bounded to 80 messages; non-trivial = the consumer was slow/stalled and got ephemeral frames).')
 ASSUMPTIONS = ['socket model of DESIGN.md section 3.3; PUB high-water-mark drops towards a stalled listener are not modelled (the synchronized stream does not depend on them)',
                'precondition: synchronized consumers are listed in the publisher\'s outputs_required (the docs warn that a publisher with only ephemeral listeners starts publishing)']
 BUDGET = {'quick': 70, 'thorough': 900}
